@@ -110,6 +110,10 @@ type Machine struct {
 	RespendReorgs                            int // reorgs after which a restored output is spent by a different transaction
 	ReminedReorgs                            int // reorgs that mine a disconnected transaction again on the new branch
 
+	// Wide: transactions with more than 256 outputs (output indexes need both bytes of a uint16)
+	Wide      map[common.Uint256]int // txid -> number of outputs
+	WideSpent int                    // payments built on purpose from wide outputs around index 256
+
 	salt uint64
 }
 
@@ -285,6 +289,16 @@ func (m *Machine) makePay(t *rapid.T, cands []node.Coin, atHeight uint32, kind s
 	}
 	first := funded[rapid.IntRange(0, len(funded)-1).Draw(t, "coin")]
 	coins := []node.Coin{first}
+	if w := m.wideInteresting(funded); len(w) > 0 && rapid.Bool().Draw(t, "wide-coin") {
+		// outputs of a >256-output transaction on both sides of index 256
+		coins = []node.Coin{w[rapid.IntRange(0, len(w)-1).Draw(t, "wide-index")]}
+		if rapid.Bool().Draw(t, "wide-second") {
+			if c := w[rapid.IntRange(0, len(w)-1).Draw(t, "wide-index2")]; c.Op != coins[0].Op {
+				coins = append(coins, c)
+			}
+		}
+		m.WideSpent++
+	}
 	extra := rapid.IntRange(0, m.Opts.MaxIns-1).Draw(t, "extra-ins")
 	var zeros []node.Coin
 	for _, c := range cands {
@@ -586,7 +600,7 @@ func Run(t *rapid.T, o Opts) *Machine {
 	defer n.Close()
 	n.AutoPoolCleanup = auto
 	m := &Machine{N: n, Tree: node.NewTree(n.Genesis), Opts: o, Maturity: maturity, AutoPool: auto,
-		TxBy: map[common.Uint256]*KnownTx{}, ledgers: map[common.Uint256]*Ledger{}, OnActive: map[common.Uint256]uint32{}, PoolSynced: true, MaybeStale: map[ctypes.OutPoint]bool{}}
+		TxBy: map[common.Uint256]*KnownTx{}, ledgers: map[common.Uint256]*Ledger{}, OnActive: map[common.Uint256]uint32{}, PoolSynced: true, MaybeStale: map[ctypes.OutPoint]bool{}, Wide: map[common.Uint256]int{}}
 	m.setup(t)
 
 	step := func(name string, f func(t *rapid.T)) func(t *rapid.T) {
@@ -616,6 +630,7 @@ func Run(t *rapid.T, o Opts) *Machine {
 		"badBlock": step("badBlock", m.actBadBlock),
 		"cleanup":  step("cleanup", m.actCleanup),
 		"resubmit": step("resubmit", m.actResubmit),
+		"payWide":  step("payWide", m.actPayWide),
 	}
 	t.Repeat(actions)
 	return m
@@ -743,10 +758,17 @@ func (m *Machine) conflictCoin(t *rapid.T, l *Ledger, allowPool bool) (node.Coin
 			cs = append(cs, cand{c, "pool-conflict"})
 		}
 	}
+	var spentWide []cand
 	for _, c := range l.Spent() {
 		if c.KeyIdx >= 0 {
 			cs = append(cs, cand{c, "chain-spent"})
+			if _, wide := m.Wide[c.Op.TxID]; wide {
+				spentWide = append(spentWide, cand{c, "chain-spent"})
+			}
 		}
+	}
+	if len(spentWide) > 0 && rapid.Bool().Draw(t, "respend-wide") {
+		return spentWide[rapid.IntRange(0, len(spentWide)-1).Draw(t, "spent-wide")].c, "chain-spent"
 	}
 	// outputs that exist only on other branches
 	var side []node.Coin
@@ -1061,4 +1083,75 @@ func (m *Machine) actResubmit(t *rapid.T) {
 		return
 	}
 	m.submit(cands[rapid.IntRange(0, len(cands)-1).Draw(t, "known-tx")], "resubmit")
+}
+
+// wideInteresting filters coins that are outputs of a wide transaction at the
+// indexes where a 16-bit index matters: k and k+256 for the first few k, 255,
+// 256 and the last output.
+func (m *Machine) wideInteresting(cands []node.Coin) []node.Coin {
+	var out []node.Coin
+	for _, c := range cands {
+		n, ok := m.Wide[c.Op.TxID]
+		if !ok {
+			continue
+		}
+		i := int(c.Op.Index)
+		lowMax := n - 257
+		if lowMax > 3 {
+			lowMax = 3
+		}
+		if i <= lowMax || (i >= 256 && i-256 <= lowMax) || i == 255 || i == 256 || i == n-1 {
+			out = append(out, c)
+		}
+	}
+	return out
+}
+
+// actPayWide builds a payment with 257..320 small outputs (at most two per
+// history) and either offers it to the pool or mines it directly.
+func (m *Machine) actPayWide(t *rapid.T) {
+	if len(m.Wide) >= 2 {
+		m.actPay(t)
+		return
+	}
+	h := m.Ledger.Height + 1
+	n := rapid.IntRange(257, 320).Draw(t, "wide-outputs")
+	base := rapid.IntRange(1, 1000).Draw(t, "wide-base")
+	var src *node.Coin
+	cands := minus(m.Ledger.Spendable(h, m.Maturity), m.poolUsed())
+	for i := range cands {
+		if src == nil || cands[i].Value > src.Value {
+			src = &cands[i]
+		}
+	}
+	fee := common.Fixed64(rapid.Int64Range(minFee, 50000).Draw(t, "fee"))
+	var outs []node.Out
+	var sum common.Fixed64
+	for i := 0; i < n-1; i++ {
+		v := common.Fixed64(2*minFee + (base*(i+7))%1800)
+		if m.Opts.ZeroOuts && (i+base)%97 == 0 {
+			v = 0
+		}
+		outs = append(outs, node.Out{To: m.N.Keys[(i+base)%m.Opts.NAddrs].ProgramHash, Value: v})
+		sum += v
+	}
+	if src == nil || src.Value < sum+fee+1 {
+		m.actPay(t)
+		return
+	}
+	outs = append(outs, node.Out{To: m.N.Keys[src.KeyIdx].ProgramHash, Value: src.Value - sum - fee})
+	tx, err := m.N.Transfer([]node.Coin{*src}, outs, h)
+	if err != nil {
+		t.Fatalf("harness: wide Transfer: %v", err)
+	}
+	k := m.remember(tx, []node.Coin{*src}, "wide")
+	m.Wide[k.Hash] = n
+	m.logf("  wide tx %s with %d outputs", short(k.Hash), n)
+	if rapid.Bool().Draw(t, "via-pool") {
+		m.submit(k, "honest")
+		return
+	}
+	tn := m.buildBlock(t, m.ActiveTip, []*KnownTx{k}, true, "mine")
+	m.logf("  block h%d %s with the wide tx", tn.Height, short(tn.Hash))
+	m.deliver(tn, "", false)
 }
